@@ -128,8 +128,10 @@ func (w *c11Walker) walk(fd *ast.FuncDecl, lockTag string, mutate string) {
 			switch {
 			case mutate == "?upd" && strings.Contains(src, ".routes.LoadOrStore("):
 				w.emit("sAdd")
-			case mutate == "?upd" && strings.Contains(src, ".routes.Delete("):
+			case mutate == "?upd" && (strings.Contains(src, ".routes.Delete(") || strings.Contains(src, ".release(") || strings.Contains(src, ".dropClaim(")):
 				w.emit("sDel")
+			case mutate == "?upd" && !strings.Contains(src, "sr."):
+				// a loop over the description that only fills a local (e.g. the `listed` set)
 			case mutate != "" && mutate != "?upd":
 				w.emit(mutate)
 			default:
@@ -227,6 +229,48 @@ func extractC11(c *Ctx) {
 		})
 	}
 	c.Add("c11ServiceStoreSame", "Bool", LeanBool(storeSame), sf, "updateRoutes contains routes.Store (re-store on same owner)")
+
+	// order of the router-state operations inside the phases of the service router (fix D31):
+	// calls are listed in source order; the Lean statements sAdd / sDel / sRemove are defined in this order
+	calls := func(recv, fn string, pats []string) {
+		var out []string
+		src := ""
+		if fd := c.FuncDecl(sf, recv, fn); fd != nil {
+			src = c.Pos(fd)
+			ast.Inspect(fd.Body, func(n ast.Node) bool {
+				switch x := n.(type) {
+				case *ast.CallExpr:
+					f := callSrc(c, x.Fun)
+					for _, p := range pats {
+						if strings.HasSuffix(f, p) {
+							out = append(out, strings.TrimPrefix(p, "."))
+						}
+					}
+					if f == "delete" && len(x.Args) > 0 {
+						out = append(out, "delete:"+callSrc(c, x.Args[0]))
+					}
+					if f == "verifhook.Point" {
+						out = append(out, "hook")
+					}
+				case *ast.AssignStmt:
+					if len(x.Lhs) == 1 {
+						l := callSrc(c, x.Lhs[0])
+						if strings.HasPrefix(l, "sr.svcRoutes[") || strings.HasPrefix(l, "sr.waiting[") {
+							out = append(out, "set:"+l[:strings.Index(l, "[")])
+						}
+					}
+				}
+				return true
+			})
+		}
+		c.Add("c11Svc"+strings.ToUpper(fn[:1])+fn[1:]+"Calls", "List String", LeanStrList(out), src, "router-state operations of "+fn+" in source order")
+	}
+	pats := []string{".routes.LoadOrStore", ".routes.Store", ".routes.Delete", ".routes.Swap", ".routes.CompareAndSwap", ".recordClaim", ".dropClaim", ".release"}
+	calls("ServiceRouter", "updateRoutes", pats)
+	calls("ServiceRouter", "removeTarget", pats)
+	calls("ServiceRouter", "release", pats)
+	calls("ServiceRouter", "recordClaim", pats)
+	calls("ServiceRouter", "dropClaim", pats)
 
 	// `closed` is an atomic.Bool in both watcher types
 	atomicClosed := true
